@@ -18,7 +18,6 @@ package core
 
 import (
 	"encoding/json"
-	"fmt"
 	"sync"
 	"time"
 )
@@ -392,7 +391,9 @@ func (s *LinearState) doFindRules(ctx *Context, event Map) (map[string]Map, erro
 				}
 			}
 		default:
-			panic(fmt.Errorf("rule %#v bad type", rule))
+			// A fact can say anything, including "rule":5.
+			// That's not a rule, so there is nothing to find.
+			Log(WARN, ctx, "LinearState.FindRules", "name", s.Name, "id", id, "notRule", rule)
 		}
 	}
 
